@@ -72,9 +72,7 @@ def _worker(task):
     def _alarm(signum, frame):
         raise _Budget()
     budget = int(os.environ.get("PYVC_INSTANCE_BUDGET", "150" if tier == "quick" else "1500"))
-    signal.signal(signal.SIGALRM, _alarm)
-    signal.alarm(budget)
-    t0 = time.time()
+    t0 = time.time()   # the parent process enforces the budget by killing this worker (see run_tasks)
     try:
         if _V is None:
             _V = Verifier(repo=REPO, verif=VERIF, timeout_ms=timeout_ms, tier=tier)
@@ -95,9 +93,86 @@ def _worker(task):
                 "obligations": [], "inlined": [], "substituted": [], "secs": time.time() - t0, "notes": [], "solver_calls": 0,
                 "covers": 1, "aborted": 0}
     except Exception as e:
+        if time.time() - t0 >= budget - 2:
+            # the budget alarm fired inside a solver call (the exception surfaces as a ctypes error): same outcome
+            set_ctx(None)
+            _V = None
+            return {"contract": cid, "binding": binding, "paths": 0, "out_of_reach": f"time budget of {budget}s per instance exhausted",
+                    "obligations": [], "inlined": [], "substituted": [], "secs": time.time() - t0, "notes": [], "solver_calls": 0,
+                    "covers": 1, "aborted": 0}
         return {"contract": cid, "binding": binding, "crash": traceback.format_exc()}
     finally:
-        signal.alarm(0)
+        pass
+
+
+def run_tasks(tasks, nproc, tier, stop_when=None):
+    """run verification tasks in worker subprocesses (pyvc.batch) with a HARD per-task limit: a worker that does not
+    answer in time is killed and replaced, its task is reported out of reach (never a verdict).  When `stop_when`
+    says a finished instance carries a natively confirmed violation, the instances not yet started are skipped."""
+    import queue
+    import select
+    import threading
+    hard = int(os.environ.get("PYVC_INSTANCE_BUDGET", "150" if tier == "quick" else "1500"))
+    stop = {"flag": False}
+    q = queue.Queue()
+    for i, t in enumerate(tasks):
+        q.put((i, t))
+    results = [None] * len(tasks)
+    env = dict(os.environ, PYVC_VERIF=VERIF, PYCOMM3_REPO=REPO, PYTHONDONTWRITEBYTECODE="1")
+
+    def spawn():
+        return subprocess.Popen([sys.executable, "-m", "pyvc.batch"], stdin=subprocess.PIPE, stdout=subprocess.PIPE,
+                                stderr=(None if os.environ.get("PYVC_VERBOSE") else subprocess.DEVNULL), cwd=VERIF, env=env,
+                                text=True, bufsize=1)
+
+    def run():
+        proc = spawn()
+        while True:
+            try:
+                i, t = q.get_nowait()
+            except queue.Empty:
+                break
+            if stop["flag"]:
+                results[i] = {"contract": t[0], "binding": t[1], "skipped": True}
+                continue
+            line = ""
+            try:
+                proc.stdin.write(json.dumps(list(t)) + "\n")
+                proc.stdin.flush()
+                ready, _, _ = select.select([proc.stdout], [], [], hard)
+                line = proc.stdout.readline() if ready else ""
+            except Exception:
+                line = ""
+            if line:
+                try:
+                    results[i] = json.loads(line)
+                    if stop_when is not None and not stop["flag"] and stop_when(results[i]):
+                        stop["flag"] = True
+                    continue
+                except Exception:
+                    pass
+            try:
+                proc.kill()
+                proc.wait(timeout=10)
+            except Exception:
+                pass
+            results[i] = {"contract": t[0], "binding": t[1], "paths": 0,
+                          "out_of_reach": f"no answer within the hard limit of {hard}s per instance (worker killed)",
+                          "obligations": [], "inlined": [], "substituted": [], "secs": hard, "notes": [], "solver_calls": 0,
+                          "covers": 1, "aborted": 0}
+            proc = spawn()
+        try:
+            proc.stdin.close()
+            proc.wait(timeout=10)
+        except Exception:
+            proc.kill()
+
+    threads = [threading.Thread(target=run) for _ in range(nproc)]
+    for th in threads:
+        th.start()
+    for th in threads:
+        th.join()
+    return results
 
 
 def run_native(args, timeout=600):
@@ -154,8 +229,27 @@ def check(prop, tier, seed):
         return 3
     nproc = min(int(os.environ.get("PYVC_JOBS", "16")), max(1, len(tasks)))
     ctxm = mp.get_context("fork")
-    with ctxm.Pool(nproc) as pool:
-        results = pool.map(_worker, tasks, chunksize=1)
+
+    def confirmed_violation(r):
+        """native replay of the first counter-model of a finished instance (used to stop early on a definite violation)"""
+        try:
+            c = api.BY_ID[r["contract"]]
+            for o in r.get("obligations", []):
+                if o["status"] == "failed" and o.get("inputs") and not (o.get("known") and o["known"] in kf) and getattr(c, "replay", True):
+                    os.makedirs(os.path.join("replays", prop), exist_ok=True)
+                    path = os.path.join("replays", prop, safe_name("early-" + r["contract"]) + ".json")
+                    json.dump({"property": prop, "contract": r["contract"], "binding": r["binding"], "obligation": o["name"],
+                               "inputs": o["inputs"]}, open(path, "w"), indent=1)
+                    rc, out, err = run_native(["replay", path])
+                    os.unlink(path)
+                    return rc == 1
+        except Exception:
+            return False
+        return False
+
+    results = run_tasks(tasks, nproc, tier, stop_when=confirmed_violation) if tasks else []
+    n_skipped = len([r for r in results if r.get("skipped")])
+    results = [r for r in results if not r.get("skipped")]
     crashes = [r for r in results if "crash" in r]
     if crashes:
         for r in crashes[:3]:
